@@ -74,6 +74,21 @@ def instance_memos(mod, cls):
                 root = dict_root(a[2])
                 if root:
                     dict_tested.add(root)
+            # cached = getattr(self, "_x", None); if cached is not None: return cached
+            for a in find_atoms(e.value, lambda a: a[0] in ("is", "isnot")):
+                for x, y in ((a[1], a[2]), (a[2], a[1])):
+                    xa = x.as_atom()
+                    if y.key() == "None" and xa and xa[0] == "call" and call_name(xa) == "getattr" and len(xa[2]) == 3 and xa[2][0].key() == "self" \
+                            and xa[2][2].key() == "None" and _str(xa[2][1]):
+                        tested.add(_str(xa[2][1]))
+        # try: return self._x  except AttributeError: compute
+        for r in ev.returns:
+            if r.value is None:
+                continue
+            ra = r.value.as_atom()
+            if ra and ra[0] == "attr" and ra[1].key() == "self" and any(
+                    (c.as_atom() or ("",))[0] == "try" and "AttributeError" in str((c.as_atom() or ("", 0, ()))[2]) for c, _ in r.guards):
+                tested.add(ra[2])
         # consulted through .get(key) / [key] under try: the dictionary lives on the instance under any spelling
         for e in ev.events:
             if e.value is None:
@@ -191,7 +206,7 @@ def removals(mod, cls, ev, memos, depth=0):
                 s = _str(args[1])
                 if s in memos:
                     out.append((idx, {s}, e.guards))
-            elif cn == ".pop" and e.target.key() == "self.__dict__.pop" and args:
+            elif cn == ".pop" and e.target.key() in ("self.__dict__.pop", "vars(self).pop") and args:
                 s = _str(args[0])
                 if s in memos:
                     out.append((idx, {s}, e.guards))
